@@ -1,5 +1,27 @@
-(* C16 / C17 / C18 for the UBJSON parser model: how the parser treats its
-   visitor, what state it is in after an accepted document, and the pull decoder. *)
+(* C16 / C17 / C18 for the UBJSON parser model (Ubjson/Parse.v): how the parser treats its
+   visitor, what state it is in after an accepted document, and the pull decoder.
+   All theorems are closed under the global context.
+
+   C16  C16_ubj_parse_prompt, C16_ubj_parse_fail_spec, C16_ubj_parse_prefix (Write...Write),
+        C16_ubj_run_parse_* (Parse).  Premise "returns Ok" (see Ubjson/ParseSafety.v for totality).
+   C17  C17_ubj_parse_top(_any), C17_ubj_writes_top, C17_ubj_run_*_top: after any accepted input the
+        state stack is empty, cur = (stNext, stStart), buffer/marker/err are clear;
+        C17_ubj_parse_vstack: the valueState stack is empty too (inputs without zero-sized typed
+        containers, via ParseSafety.ext3b); C17_ubj_accept_reset / C17_ubj_accept_stacks: for
+        documents the reference decoder accepts all three stacks are empty and the final parser
+        is the initial one except for the dead field up_vtype.
+        Not proved: emptiness of the length stack for arbitrary accepted inputs; the behavioural
+        form (up_vtype is dead on entry).
+   C18  (a) C18_ubj_next_no_panic (any script), C18_ubj_next_total (guard of C03),
+            C18_ubj_next_total_partial (relative to totality of the inner loop);
+        (b) C18_ubj_next_value_partial, C18_ubj_next_total: a nil Next stopped with an empty state
+            stack and consumed >= 1 byte (not proved: >= 1 event, tree shape);
+        (c) C18_ubj_run_script_independent_partial, C18_ubj_reader_as_bytes_partial,
+            C18_ubj_scripts_same_data(_partial): the complete event sequence and the final verdict of a
+            run of Next calls depend only on the concatenated data (and the runs return, under the
+            guard of C03).  Not proved: which events are
+            delivered by which call (needs the done flag of execStep to be determined by the
+            parser states; ChunkProofs.ext does not compare it). *)
 From Coq Require Import Setoid List NArith ZArith Bool Lia.
 From Coq Require Import ZifyBool ZifyNat ZifyN.
 From SF Require Import Base.Prelude Core.Events Ubjson.Spec Ubjson.Parse Ubjson.ChunkProofs.
@@ -1256,6 +1278,260 @@ Proof.
   exact Inv0.
 Qed.
 
+(* ====================================================================== *)
+(* Part 4: with the safety results of Ubjson/ParseSafety.v                *)
+(* ====================================================================== *)
+From SF Require Ubjson.ParseSafety.
+Module PS := SF.Ubjson.ParseSafety.
+
+(* ---------- C18 (a): Next never panics, for any reader script ---------- *)
+Definition no_panic_post (r : res (udecoder * sink * Z)) : Prop :=
+  match r with
+  | Panic _ => False
+  | Ok (d', _, e) => unil e = true -> PS.inv1b (ud_p d') = true
+  | _ => True
+  end.
+
+Theorem C18_ubj_next_no_panic : forall fuel d s,
+  PS.inv1b (ud_p d) = true -> no_panic_post (udec_next fuel d s).
+Proof.
+  induction fuel as [|f IH]; intros d s Hi; [exact I|].
+  rewrite udec_next_S.
+  assert (Hfill : match udec_fill d with
+                  | UFbody d1 | UFerr d1 _ => ud_p d1 = ud_p d
+                  | UFfin _ => True end).
+  { unfold udec_fill. destruct (zlen (ud_buf d) =? 0); [|reflexivity].
+    destruct (ud_bytesdec d); [exact I|]. destruct (ud_script d) as [|[data err] rest]; [exact I|].
+    cbv zeta. destruct (_ && _); [destruct (err =? ueEOF)|]; try exact I; reflexivity. }
+  destruct (udec_fill d) as [d1|sc|d1 e].
+  - assert (Hi1 : PS.inv1b (ud_p d1) = true) by (rewrite Hfill; exact Hi).
+    destruct (zlen (ud_buf d1) =? 0) eqn:Eb; [apply IH; exact Hi1|].
+    assert (Hr : PS.ready (ud_p d1) (ud_buf d1)) by (left; intros E; rewrite E in Eb; discriminate Eb).
+    pose proof (PS.ufeed_until_safe1 (ufeed_fuel (ud_p d1) (ud_buf d1)) (ud_p d1) s (ud_buf d1) Hi1 Hr) as H.
+    unfold udec_body.
+    destruct (ufeed_until _ _ _ _) as [[p1 s1 rest dn err|w]|e|w|]; cbn [PS.post_fu] in H; try contradiction; try exact I.
+    cbv zeta. destruct (unil err) eqn:Ee; cbn [negb].
+    + destruct dn; [cbn [no_panic_post ud_p]; intros _; exact (H eq_refl)|].
+      apply IH. cbn [ud_p]. exact (H eq_refl).
+    + cbn [no_panic_post]. intros K. congruence.
+  - unfold udec_fin. destruct (ufin (ud_p d) s) as [[p1 s1] e0]. cbn [no_panic_post].
+    destruct (unil e0) eqn:E0; intros K; [discriminate K|congruence].
+  - cbn [no_panic_post]. intros _. rewrite Hfill. exact Hi.
+Qed.
+
+Corollary C18_ubj_reader_no_panic : forall fuel sc s w, udec_next fuel (ureader_dec sc) s <> Panic w.
+Proof.
+  intros fuel sc s w H. pose proof (C18_ubj_next_no_panic fuel (ureader_dec sc) s PS.inv1b_init) as P.
+  rewrite H in P. exact P.
+Qed.
+
+(* ---------- C18 (a), (b): with the guard of C03 (no '$' directly followed by Z, T or F in
+   what is still to come) Next returns; a nil verdict means: the state stack is empty again,
+   the invariants hold for the next call, and at least one byte was consumed ---------- *)
+Definition udec_good (d : udecoder) : Prop :=
+  PS.inv1b (ud_p d) = true /\ PS.ext3b (ud_p d) = true /\ PS.guard (ud_p d) (urem d) /\
+  uscript_okb (ud_script d) = true.
+
+Lemma suffix_len : forall b rest : bytes, PS.suffix_of b rest -> (length rest <= length b)%nat.
+Proof. intros b rest [pre ->]. rewrite app_length. lia. Qed.
+
+Theorem C18_ubj_next_total : forall fuel d s,
+  udec_good d -> (umeasure d < fuel)%nat ->
+  exists d' s' e, udec_next fuel d s = Ok (d', s', e) /\
+    (e = unilE -> udec_good d' /\ up_stack (ud_p d') = [] /\
+                  (length (urem d') <= length (urem d))%nat /\
+                  (u_t (up_cur (ud_p d)) = tNext -> (length (urem d') < length (urem d))%nat) /\
+                  (umeasure d' <= umeasure d)%nat).
+Proof.
+  induction fuel as [|f IH]; intros d s (Hi & He & Hg & Hsc) Hm; [lia|].
+  rewrite udec_next_S. pose proof (udec_fill_spec d Hsc) as Hf.
+  destruct (udec_fill d) as [d1|sc|d1 e1]; [| |contradiction].
+  - destruct Hf as (Hp & Hr & Ho & Hms).
+    assert (Hgood1 : udec_good d1) by (unfold udec_good; rewrite Hp, Hr; auto).
+    assert (Hm1 : (umeasure d1 <= umeasure d)%nat /\ (ud_buf d1 = [] -> umeasure d1 < umeasure d)%nat).
+    { destruct Hms as [Hms|[-> Hb]]; [|split; [lia|intros; contradiction]].
+      unfold umeasure. destruct (ud_buf d1), (ud_buf d); split; intros; lia. }
+    destruct Hm1 as [Hm1 Hm2].
+    destruct (zlen (ud_buf d1) =? 0) eqn:Eb.
+    + apply Z.eqb_eq, zlen_zero in Eb.
+      destruct (IH d1 s Hgood1) as (d' & s' & e & H1 & H2); [specialize (Hm2 Eb); lia|].
+      exists d', s', e. split; [exact H1|]. rewrite <- Hr, <- Hp. intros E'.
+      destruct (H2 E') as (X1 & X2 & X3 & X4 & X5). repeat (split; [assumption|]). lia.
+    + assert (Hb : ud_buf d1 <> []) by (intros E; rewrite E in Eb; discriminate Eb).
+      destruct Hgood1 as (Hi1 & He1 & Hg1 & _).
+      destruct (PS.ufeed_until_total (ufeed_fuel (ud_p d1) (ud_buf d1)) (ud_p d1) s (ud_buf d1) (utailb d1)
+                  Hi1 He1 (or_introl Hb) Hg1 (PS.phi_fuel _ _))
+        as (p1 & s1 & rest & dn & err & Heq & Hok).
+      unfold udec_body. rewrite Heq. cbv zeta.
+      destruct (unil err) eqn:Ee; cbn [negb].
+      * destruct (Hok eq_refl) as (A & B & C & D & E & F & G).
+        assert (Hlen : (length rest <= length (ud_buf d1))%nat) by (apply suffix_len; exact C).
+        assert (Hstrict : u_t (up_cur (ud_p d)) = tNext -> (length rest < length (ud_buf d1))%nat).
+        { intros Ht. rewrite <- Hp in Ht. assert (K : (u_t (up_cur (ud_p d1)) =? 1) = true) by (rewrite Ht; reflexivity).
+          specialize (G K). unfold zlen in G. lia. }
+        destruct dn.
+        -- eexists _, _, _. split; [reflexivity|]. intros _. cbn [ud_p].
+           split; [unfold udec_good; cbn [ud_p ud_script]; unfold urem; cbn [ud_buf]; auto|].
+           split; [apply E; reflexivity|].
+           rewrite <- Hr. unfold urem. cbn [ud_buf]. rewrite !app_length.
+           change (utailb {| ud_p := p1; ud_buf := rest; ud_script := ud_script d1; ud_bytesdec := ud_bytesdec d1 |})
+             with (utailb d1).
+           split; [lia|]. split; [intros Ht; specialize (Hstrict Ht); lia|].
+           unfold umeasure in *. cbn [ud_script ud_buf]. destruct rest; destruct (ud_buf d1); try congruence; lia.
+        -- specialize (F eq_refl). subst rest.
+           set (d2 := {| ud_p := p1; ud_buf := []; ud_script := ud_script d1; ud_bytesdec := ud_bytesdec d1 |}).
+           assert (Hgood2 : udec_good d2).
+           { unfold udec_good, d2. cbn [ud_p ud_script]. unfold urem. cbn [ud_buf]. auto. }
+           destruct (IH d2 s1 Hgood2) as (d' & s' & e & H1 & H2).
+           { unfold umeasure, d2 in *. cbn [ud_script ud_buf] in *. destruct (ud_buf d1); [congruence|lia]. }
+           exists d', s', e. split; [exact H1|]. intros E'. destruct (H2 E') as (X1 & X2 & X3 & _ & X5).
+           split; [exact X1|]. split; [exact X2|].
+           assert (Hr2 : urem d2 = utailb d1) by reflexivity. rewrite Hr2 in X3.
+           rewrite <- Hr. unfold urem at 2 4. rewrite !app_length.
+           split; [lia|]. split.
+           ++ intros Ht. specialize (Hstrict Ht). cbn [length] in Hstrict. destruct (ud_buf d1); [congruence|cbn [length]; lia].
+           ++ unfold umeasure, d2 in *. cbn [ud_script ud_buf] in *. destruct (ud_buf d1); lia.
+      * eexists _, _, _. split; [reflexivity|]. intros ->. discriminate Ee.
+  - unfold udec_fin. destruct (ufin (ud_p d) s) as [[p1 s1] e0]. eexists _, _, _. split; [reflexivity|].
+    intros K. destruct (unil e0) eqn:E0; [discriminate K|]. subst e0. discriminate E0.
+Qed.
+
+Lemma udec_good_reader : forall sc, uscript_okb sc = true -> PS.no_zero_typed (concat (map fst sc)) = true ->
+  udec_good (ureader_dec sc).
+Proof.
+  intros sc H1 H2. unfold udec_good, ureader_dec. cbn [ud_p ud_script].
+  split; [reflexivity|]. split; [reflexivity|]. split; [|exact H1]. apply PS.guard_init. exact H2.
+Qed.
+
+(* the whole run returns: at most one Next per byte, plus the final one *)
+Lemma udrain_total : forall n fuel d s,
+  (length (urem d) <= n)%nat -> udec_good d -> u_t (up_cur (ud_p d)) = tNext -> (umeasure d < fuel)%nat ->
+  exists o, udrain (S n) fuel d s = Ok o.
+Proof.
+  induction n as [|n IH]; intros fuel d s Hn Hg Ht Hm; cbn [udrain];
+    destruct (C18_ubj_next_total fuel d s Hg Hm) as (d' & s' & e & H & Hnil); rewrite H;
+    (destruct (unil e) eqn:Ee; [|eauto]); apply unil_true' in Ee;
+    destruct (Hnil Ee) as (Hg' & Hs' & _ & Hlt & Hm'); specialize (Hlt Ht).
+  - lia.
+  - apply IH; [lia|exact Hg'| |lia].
+    destruct Hg' as (_ & He' & _). pose proof (PS.chain_nil_next _ He' Hs') as K. apply Z.eqb_eq in K. exact K.
+Qed.
+
+(* C18 (a)+(c) together: two well-behaved scripts with the same data (containing no '$'
+   directly followed by Z, T or F): both complete runs return, with the same events
+   and the same final verdict *)
+Theorem C18_ubj_scripts_same_data : forall sc1 sc2 s fuel,
+  uscript_okb sc1 = true -> uscript_okb sc2 = true ->
+  concat (map fst sc1) = concat (map fst sc2) ->
+  PS.no_zero_typed (concat (map fst sc1)) = true ->
+  (2 * length sc1 + 1 <= fuel)%nat -> (2 * length sc2 + 1 <= fuel)%nat ->
+  exists o, udrain (S (length (concat (map fst sc1)))) fuel (ureader_dec sc1) s = Ok o /\
+            udrain (S (length (concat (map fst sc1)))) fuel (ureader_dec sc2) s = Ok o.
+Proof.
+  intros sc1 sc2 s fuel H1 H2 Hc Hz Hf1 Hf2.
+  destruct (udrain_total (length (concat (map fst sc1))) fuel (ureader_dec sc1) s) as (o1 & R1).
+  { unfold urem, utailb, ureader_dec. cbn [ud_buf ud_script ud_bytesdec app]. lia. }
+  { apply udec_good_reader; assumption. }
+  { reflexivity. }
+  { unfold umeasure, ureader_dec. cbn [ud_script ud_buf]. lia. }
+  destruct (udrain_total (length (concat (map fst sc1))) fuel (ureader_dec sc2) s) as (o2 & R2).
+  { unfold urem, utailb, ureader_dec. cbn [ud_buf ud_script ud_bytesdec app]. rewrite Hc. lia. }
+  { apply udec_good_reader; [assumption|]. rewrite <- Hc. exact Hz. }
+  { reflexivity. }
+  { unfold umeasure, ureader_dec. cbn [ud_script ud_buf]. lia. }
+  exists o1. split; [exact R1|]. rewrite R2. f_equal. symmetry.
+  eapply (C18_ubj_scripts_same_data_partial _ _ _ _ sc1 sc2); eauto.
+Qed.
+
+(* ---------- C17 for any accepted input without zero-sized element types: the
+   valueState stack is empty again, too ---------- *)
+Lemma R_end_nostep : forall p s b r, R p s b r -> Inv p -> snd r = unilE -> cstep (fst (fst r)) = false.
+Proof.
+  induction 1 as [p s a p1 s1 rest d e E Hn | p s a p1 s1 rest d r E Hr HR IH
+                 | p s a p1 s1 r E Hx HR IH | p s a p1 s1 d E Hd]; intros HI Hn'; cbn [fst snd] in *.
+  - congruence.
+  - apply IH; auto. eapply exec_post; eauto.
+  - apply IH; auto. eapply exec_post; eauto.
+  - destruct Hd as [->|Hd]; [|exact Hd].
+    pose proof (exec_post _ _ _ _ _ _ _ HI E) as P. exact (done_nostep _ _ P eq_refl).
+Qed.
+
+Lemma ufinalize_nostep : forall fuel p s p' s',
+  cstep p = false -> ufinalize fuel p s = (p', s', unilE) -> p' = p /\ s' = s.
+Proof.
+  intros [|f] p s p' s' Hc H; cbn [ufinalize] in H; [inversion H|].
+  unfold cstep, can_step_without_input in Hc.
+  destruct (zlen (up_stack p) >? 0).
+  - destruct ((u_t (up_cur p) =? tArrayCount) || (u_t (up_cur p) =? tArrayTyped)) eqn:Ea.
+    + destruct (negb (up_lcur p =? 0) || negb (u_s (up_cur p) =? sCont)) eqn:Ec; [inversion H|].
+      exfalso. apply orb_false_iff in Ec. destruct Ec as [E1 E2].
+      apply negb_false_iff in E1. apply negb_false_iff in E2.
+      apply orb_true_iff in Ea. destruct Ea as [Ea|Ea]; apply Z.eqb_eq in Ea; rewrite Ea in Hc;
+        cbn in Hc; rewrite E1, E2 in Hc; cbn in Hc; rewrite ?orb_true_r in Hc; discriminate Hc.
+    + destruct ((u_t (up_cur p) =? tObjectCount) || (u_t (up_cur p) =? tObjectTyped)) eqn:Eo; [|inversion H].
+      destruct (negb (up_lcur p =? 0) || negb (u_s (up_cur p) =? sFieldName)) eqn:Ec; [inversion H|].
+      exfalso. apply orb_false_iff in Ec. destruct Ec as [E1 E2].
+      apply negb_false_iff in E1. apply negb_false_iff in E2.
+      apply orb_true_iff in Eo. destruct Eo as [Eo|Eo]; apply Z.eqb_eq in Eo; rewrite Eo in Hc;
+        cbn in Hc; rewrite E1, E2 in Hc; cbn in Hc; rewrite ?orb_true_r in Hc; discriminate Hc.
+  - destruct (negb (u_s (up_cur p) =? sStart) || negb (u_t (up_cur p) =? tNext)); inversion H; auto.
+Qed.
+
+Lemma top_vstack : forall p, PS.inv1b p = true -> PS.ext3b p = true ->
+  up_stack p = [] -> u_t (up_cur p) = tNext -> u_s (up_cur p) = sStart ->
+  up_vcur p = mku tFail sStart /\ up_vstack p = [].
+Proof.
+  intros p Hi He Hs Ht Hst.
+  destruct (PS.ext3_split _ He) as (_ & Hv & _). unfold PS.vbal_f in Hv.
+  apply andb_true_iff in Hv. destruct Hv as [Hv Hbal]. apply andb_true_iff in Hv. destruct Hv as [_ Hnf].
+  rewrite Hs in Hbal. cbn [PS.tcount] in Hbal.
+  assert (HT : PS.Tz (up_cur p) = 0).
+  { unfold PS.Tz, PS.st_in. rewrite Ht, Hst. reflexivity. }
+  rewrite HT in Hbal. unfold PS.vdepth in Hbal.
+  destruct (u_t (up_vcur p) =? 0) eqn:Ev.
+  2:{ exfalso. pose proof (PS.zlen_nonneg _ (up_vstack p)). lia. }
+  unfold PS.nonfail in Hnf. rewrite Ev in Hnf. cbn [negb orb] in Hnf.
+  split.
+  - unfold PS.inv1b in Hi. apply andb_true_iff in Hi. destruct Hi as [Hi _]. apply andb_true_iff in Hi. destruct Hi as [_ Hvc].
+    apply PS.st_in_In in Hvc. apply Z.eqb_eq in Ev.
+    destruct (up_vcur p) as [t0 s0]. cbn [u_t u_s] in *. subst t0.
+    unfold PS.vstates, PS.fresh_states in Hvc. cbn [In] in Hvc.
+    repeat (destruct Hvc as [Hvc|Hvc]; [inversion Hvc; subst; try reflexivity; try discriminate|]). contradiction.
+  - destruct (up_vstack p) as [|x l]; [reflexivity|]. unfold zlen in Hnf. cbn [length] in Hnf. lia.
+Qed.
+
+Theorem C17_ubj_parse_vstack : forall s b p' s',
+  PS.no_zero_typed b = true -> up_parse uparser0 s b = Ok (p', s', unilE) ->
+  top p' /\ up_vcur p' = mku tFail sStart /\ up_vstack p' = [].
+Proof.
+  intros s b p' s' Hz H.
+  destruct (C17_ubj_parse_top _ _ _ _ _ Inv0 H) as [Htop _]. split; [exact Htop|].
+  unfold up_parse in H.
+  destruct (PS.ufeed_total (2 * length b + 2) uparser0 s b [] PS.inv1b_init PS.ext3b_init) as (p1 & s1 & err & Heq & Hok).
+  { rewrite app_nil_r. apply PS.guard_init. exact Hz. }
+  { change (u_t (up_cur uparser0) =? 1) with true. cbv iota. unfold zlen. lia. }
+  rewrite Heq in H. destruct (unil err) eqn:Ee; [|inversion H; subst; discriminate Ee].
+  apply unil_true' in Ee. subst err. destruct (Hok eq_refl) as (Hi1 & He1 & _).
+  inversion H as [H0]. clear H.
+  apply feed_sound in Heq.
+  assert (Hc : cstep p1 = false).
+  { destruct Heq as [[_ E]|[_ HR]].
+    - inversion E; subst. reflexivity.
+    - exact (R_end_nostep _ _ _ _ HR Inv0 eq_refl). }
+  unfold ufin in H0. destruct (ufinalize_nostep _ _ _ _ _ Hc H0) as [-> ->].
+  destruct Htop as (Hcur & Hs & _).
+  apply top_vstack; auto; rewrite Hcur; reflexivity.
+Qed.
+
+Corollary C17_ubj_run_parse_vstack : forall vfail b evs p,
+  PS.no_zero_typed b = true -> urun_parse vfail b = Ok (evs, unilE, p) ->
+  top p /\ up_vcur p = mku tFail sStart /\ up_vstack p = [].
+Proof.
+  intros vfail b evs p Hz H. unfold urun_parse in H.
+  destruct (up_parse uparser0 (sink0 vfail) b) as [[[p' s'] e']| | |] eqn:E; try discriminate.
+  inversion H; subst. eapply C17_ubj_parse_vstack; eauto.
+Qed.
+
 Print Assumptions C16_ubj_parse_prompt.
 Print Assumptions C16_ubj_parse_fail_spec.
 Print Assumptions C16_ubj_parse_prefix.
@@ -1274,3 +1550,9 @@ Print Assumptions C18_ubj_next_value_partial.
 Print Assumptions C18_ubj_run_script_independent_partial.
 Print Assumptions C18_ubj_reader_as_bytes_partial.
 Print Assumptions C18_ubj_scripts_same_data_partial.
+Print Assumptions C18_ubj_next_no_panic.
+Print Assumptions C18_ubj_reader_no_panic.
+Print Assumptions C18_ubj_next_total.
+Print Assumptions C17_ubj_parse_vstack.
+Print Assumptions C17_ubj_run_parse_vstack.
+Print Assumptions C18_ubj_scripts_same_data.
